@@ -1,16 +1,50 @@
 """Per-property configuration: streams (with sizes per tier), trusted base, assumptions."""
 
 TRUSTED_BASE = [
-    'Coq 8.16.1 kernel and VM (vm_compute); coqchk as independent re-check in the thorough tier; native_compute not used',
-    'Extraction with ExtrOcamlBasic only (bool,option,unit,list,prod,sumbool,sumor mapped to OCaml; andb/orb inlined); Z,N,positive,nat stay inductive; OCaml 4.13.1 + zarith (decimal<->binary conversion of numerals only); oracle/ast.ml term parser, generated oracle/conv.ml readers',
-    'Go harness (generators, canonicaliser, store wrapper, differ, shrinker) in /verif/harness',
-    'hand transcription of the Go sources into coq/theories/Model/*.v, tied to /repo only by the correspondence runs',
-    'third-party contracts: bbolt/badger as ordered maps with atomic isolated transactions; msgpack, gob, encoding/json as faithful round-trips; google/orderedcode re-implemented byte for byte and compared on every index key',
+    'Coq 8.16.1 kernel and VM (vm_compute inside some proofs and for the in-Coq sample); coqchk as independent re-check in the thorough tier; native_compute not used',
+    'Extraction with ExtrOcamlBasic only (Extract Inductive bool,option,unit,list,prod,sumbool,sumor to OCaml natives; Extract Inlined Constant andb => (&&), orb => (||)); Z,N,positive,nat,comparison stay Coq inductives; OCaml 4.13.1 + zarith (decimal<->binary conversion of numerals only); oracle/ast.ml term parser, generated oracle/conv.ml readers, oracle/driver.ml',
+    'Go harness in /verif/harness: generators, canonicaliser, recording store wrapper, differ, shrinker, direct property oracles',
+    'hand transcription of the Go sources into coq/theories/Model/*.v (modelled, not verified), tied to /repo only by the correspondence runs of this check',
+    'third-party contracts (modelled by contract): bbolt/badger as ordered maps with atomic isolated transactions; msgpack, gob, encoding/json as faithful round-trips; google/orderedcode re-implemented byte for byte and compared on every index key; regexp restricted to the modelled sub-language; uuid.FromString as a predicate',
 ]
+
+HIST = lambda name, q, t, args=None: {'name': name, 'cmd': 'hist', 'quick': q, 'thorough': t, 'args': ['--backend', 'all'] + (args or [])}
 
 PROPS = {
     'C10': {
         'streams': [{'name': 'c10', 'quick': 40, 'thorough': 600}],
-        'assumptions': ['no NaN; integers beyond 2^53 are not compared against floats (transitivity); key-order agreement inside key_dom: numbers within 2^53, times from 1970 on'],
+        'assumptions': ['no NaN; transitivity on triples where integers beyond 2^53 are not mixed with floats (cmp_dom3); key-order agreement inside key_dom: numbers within 2^53, times 1970..2262'],
     },
+    'C11': {
+        'streams': [{'name': 'c11', 'quick': 40, 'thorough': 400, 'args': ['--backend', 'all']}],
+        'assumptions': ['msgpack and gob are identities on wire values (contract; exercised by every read-back)'],
+    },
+    'C16': {
+        'streams': [{'name': 'c16', 'quick': 400, 'thorough': 6000}],
+        'assumptions': ['literal-kind invariance under cmp_dom3 (no NaN; big integers not mixed with floats)'],
+    },
+    'C18': {
+        'streams': [{'name': 'c18', 'quick': 6, 'thorough': 80}],
+        'assumptions': ['Document.Unmarshal (encoding/json with struct tags) is not modelled: covered by the harness only'],
+    },
+}
+
+NOTES = {
+    'C10': {'technique': 'Coq proof (nested induction on values; composition laws for the byte encoders) + exhaustive pair/triple sweep of a boundary pool against the implementation'},
+    'C11': {'technique': 'Coq proof of decode(encode d) = d on the wire model + read-back differential on both backends before/after reopen'},
+    'C16': {'technique': 'Coq proof of the Boolean/operator/literal laws of the criteria evaluator + law-pair and model differential on Satisfy'},
+    'C18': {'technique': 'Coq proof of canonicity/idempotence/struct-tag/path laws of the Normalize model + reflect-built Go values differential'},
+}
+
+# properties not (yet) claimed: reason
+NOT_APPLICABLE = {
+    'C01': 'check under construction in this session (history correspondence exists; theorems pending)',
+    'C02': 'check under construction in this session', 'C03': 'check under construction in this session',
+    'C04': 'check under construction in this session', 'C05': 'check under construction in this session',
+    'C06': 'check under construction in this session', 'C07': 'check under construction in this session',
+    'C08': 'check under construction in this session', 'C09': 'check under construction in this session',
+    'C12': 'check under construction in this session', 'C13': 'check under construction in this session',
+    'C14': 'check under construction in this session', 'C15': 'check under construction in this session',
+    'C17': 'check under construction in this session', 'C19': 'check under construction in this session',
+    'C20': 'check under construction in this session',
 }
